@@ -1163,11 +1163,17 @@ impl Blockchain {
                 match result {
                     WindingResult::Wind(current_wind_index, wind_failure, wallet_status) => {
                         wallet_update_status |= wallet_status;
-
+                        // once winding the new chain has failed, the chain being
+                        // wound is the old chain (we are restoring it)
+                        let (chain_to_wind, other_chain) = if wind_failure {
+                            (old_chain, new_chain)
+                        } else {
+                            (new_chain, old_chain)
+                        };
                         result = self
                             .wind_chain(
-                                new_chain,
-                                old_chain,
+                                chain_to_wind,
+                                other_chain,
                                 current_wind_index,
                                 wind_failure,
                                 storage,
@@ -1178,14 +1184,16 @@ impl Blockchain {
                     WindingResult::Unwind(
                         current_unwind_index,
                         wind_failure,
-                        old_chain,
+                        chain_to_unwind,
                         wallet_status,
                     ) => {
                         wallet_update_status |= wallet_status;
+                        // after a failure the chain to wind next is the old chain
+                        let chain_to_wind = if wind_failure { old_chain } else { new_chain };
                         result = self
                             .unwind_chain(
-                                new_chain,
-                                old_chain.as_slice(),
+                                chain_to_wind,
+                                chain_to_unwind.as_slice(),
                                 current_unwind_index,
                                 wind_failure,
                                 storage,
@@ -1200,15 +1208,23 @@ impl Blockchain {
                 }
             }
         } else if !new_chain.is_empty() {
-            let mut result = WindingResult::Unwind(0, true, old_chain.to_vec(), WALLET_NOT_UPDATED);
+            let mut result =
+                WindingResult::Unwind(0, false, old_chain.to_vec(), WALLET_NOT_UPDATED);
             loop {
                 match result {
                     WindingResult::Wind(current_wind_index, wind_failure, wallet_status) => {
                         wallet_update_status |= wallet_status;
+                        // once winding the new chain has failed, the chain being
+                        // wound is the old chain (we are restoring it)
+                        let (chain_to_wind, other_chain) = if wind_failure {
+                            (old_chain, new_chain)
+                        } else {
+                            (new_chain, old_chain)
+                        };
                         result = self
                             .wind_chain(
-                                new_chain,
-                                old_chain,
+                                chain_to_wind,
+                                other_chain,
                                 current_wind_index,
                                 wind_failure,
                                 storage,
@@ -1219,14 +1235,16 @@ impl Blockchain {
                     WindingResult::Unwind(
                         current_wind_index,
                         wind_failure,
-                        old_chain,
+                        chain_to_unwind,
                         wallet_status,
                     ) => {
                         wallet_update_status |= wallet_status;
+                        // after a failure the chain to wind next is the old chain
+                        let chain_to_wind = if wind_failure { old_chain } else { new_chain };
                         result = self
                             .unwind_chain(
-                                new_chain,
-                                old_chain.as_slice(),
+                                chain_to_wind,
+                                chain_to_unwind.as_slice(),
                                 current_wind_index,
                                 wind_failure,
                                 storage,
@@ -1388,7 +1406,7 @@ impl Blockchain {
                 return WindingResult::FinishWithSuccess(wallet_updated);
             }
 
-            WindingResult::Wind(current_wind_index - 1, false, wallet_updated)
+            WindingResult::Wind(current_wind_index - 1, wind_failure, wallet_updated)
         } else {
             // we have had an error while winding the chain. this requires us to
             // unwind any blocks we have already wound, and rewind any blocks we
@@ -1403,6 +1421,11 @@ impl Blockchain {
                 block.id,
                 block.hash.to_hex()
             );
+            if wind_failure {
+                // we are already restoring the old chain. nothing else to fall back to
+                error!("old chain cannot be restored. finishing with failure");
+                return WindingResult::FinishWithFailure;
+            }
             if current_wind_index == new_chain.len() - 1 {
                 // this is the first block we have tried to add
                 // and so we can just roll out the older chain
@@ -1607,6 +1630,10 @@ impl Blockchain {
             //
             // winding requires starting at the END of the vector and rolling
             // backwards until we have added block #5, etc.
+            if new_chain.is_empty() {
+                // nothing to wind back (there was no old chain)
+                return WindingResult::FinishWithFailure;
+            }
             WindingResult::Wind(new_chain.len() - 1, wind_failure, wallet_updated)
         } else {
             // continue unwinding,, which means
